@@ -1,6 +1,7 @@
 import PercevalModel.SimProto
 import PercevalModel.Model.C20
 import PercevalModel.Model.C20Conv
+import PercevalModel.Lemmas.C20HeraldedCnot
 
 /-!
   Driver of C20.  Requests (one JSON object per line):
@@ -21,6 +22,9 @@ import PercevalModel.Model.C20Conv
         -> {"shape":[[[first modes],leaky],…],"ok":bool}   (labels null: the model's own labelling)
     {"op":"cutenum","fixed":bool,"nq":n,"k":k,"first":[a,b]} -> {"ok":"110…"} (cutCheck of the model's labelling, all
         CNOT sequences as in "labelenum")
+    {"op":"catmat","name":"heralded cz"|"heralded cnot"|"postprocessed cnot"|"postprocessed cz","r":q,"h":q,"c2":q,"s2":q}
+        -> {"U":rows}   the model's explicit 6x6 matrix of the gate (`hczMatrix`, `H·hczMatrix·H`, `ppcnotMatrix`,
+        `ppczMatrix` — the matrices the exact theorems are about) evaluated at the given rational parameters
     {"op":"modes","n":n,"fixed":bool,"ups":bool,"gates":[…]}
         -> {"kinds":[…],"modes":[[…],…],"m":m,"qubits":[…],"heralds":[[mode,val],…],"layoutOk":bool}
 -/
@@ -165,6 +169,22 @@ def handle (j : Json) : Json :=
         let gs : List Gate := sq.map fun (e : Edge) => ⟨"cx", [e.1, e.2]⟩
         if cutCheck (convShape true gs (labelCnots fixed gs)) then '1' else '0'
       return Json.mkObj [("ok", Json.str (String.ofList oks))]
+    | "catmat" =>
+      let nm ← strOf j "name"
+      let r : GQ := ⟨← ratOfJson (← j.getObjVal? "r"), 0⟩
+      let h : GQ := ⟨← ratOfJson (← j.getObjVal? "h"), 0⟩
+      let c2 : GQ := ⟨← ratOfJson (← j.getObjVal? "c2"), 0⟩
+      let s2 : GQ := ⟨← ratOfJson (← j.getObjVal? "s2"), 0⟩
+      let U : Matrix (Fin 6) (Fin 6) GQ ← match nm with
+        | "heralded cz" => pure (hczMatrix r h c2 s2)
+        | "heralded cnot" =>
+          -- `hcnotCircuit` with the heralded CZ circuit replaced by its explicit matrix (`hczCircuit_eq`)
+          pure (PM.embed 6 2 (bsH h h) * (hczMatrix r h c2 s2 * PM.embed 6 2 (bsH h h)))
+        | "postprocessed cnot" => pure (ppcnotMatrix r h)
+        | "postprocessed cz" => pure (ppczMatrix r h)
+        | _ => throw "unknown catalog matrix"
+      let rows := (List.finRange 6).map fun i => Json.arr ((List.finRange 6).map fun k => gqToJson (U i k)).toArray
+      return Json.mkObj [("U", Json.arr rows.toArray)]
     | "modes" =>
       let fixed ← boolOf j "fixed"
       let ups ← boolOf j "ups"
